@@ -466,7 +466,7 @@ func invokeInProc(text, proj string, sel, req []string, force bool, cs crashSpec
 	}
 	rn := &runner{fail: fail, killAt: cs.killAt, onCall: onCall}
 	npoints := 0
-	cache.VerifPoint = func(point, path string, contents []byte) {
+	setVerifPoint(func(point, path string, contents []byte) {
 		npoints++
 		if npoints != cs.pointAt {
 			return
@@ -487,10 +487,10 @@ func invokeInProc(text, proj string, sel, req []string, force bool, cs crashSpec
 			panic(killed{fmt.Sprintf("B%d", j)})
 		}
 		panic(killed{fmt.Sprintf("A%d", j)})
-	}
+	})
 	nwrites := 0
 	if cs.errAt > 0 {
-		cache.VerifWriteError = func(string) error {
+		setWriteError(func(string) error {
 			nwrites++
 			if nwrites == cs.errAt || (cs.errFrom && nwrites > cs.errAt) {
 				if inv.crash == "-" {
@@ -499,13 +499,13 @@ func invokeInProc(text, proj string, sel, req []string, force bool, cs crashSpec
 				return errors.New("permission denied (injected)")
 			}
 			return nil
-		}
+		})
 	}
 	var runErr error
 	func() {
 		defer func() {
-			cache.VerifPoint = nil
-			cache.VerifWriteError = nil
+			setVerifPoint(nil)
+			setWriteError(nil)
 			if r := recover(); r != nil {
 				if k, ok := r.(killed); ok {
 					inv.crash = k.what
